@@ -7,8 +7,10 @@ import (
 	gotoken "go/token"
 	"io"
 
+	"github.com/dcaiafa/lox/internal/base/array"
 	"github.com/dcaiafa/lox/internal/base/errlogger"
 	"github.com/dcaiafa/lox/internal/lexergen/dfa"
+	"github.com/dcaiafa/lox/internal/lexergen/nfa"
 	"github.com/dcaiafa/lox/internal/lexergen/rang3"
 	"github.com/dcaiafa/lox/zz_verif/vrt"
 )
@@ -85,3 +87,71 @@ func H_BuildOrder() {
 	vrt.Assert(a == b, "dfa-independent-of-map-order")
 	vrt.Reach("built")
 }
+
+// H_NormalizeInputs (C15): k transitions on arbitrary ranges from one NFA state
+// to k distinct targets. After normalizeInputs, for every code point the set of
+// targets reachable on it is unchanged, and the ranges on the state are
+// pairwise equal or disjoint.
+func H_NormalizeInputs() {
+	k := vrt.Param("k", 2)
+	mb := New("m")
+	start := mb.StateFactory.NewState()
+	ranges := make([]rang3.Range, k)
+	for i := 0; i < k; i++ {
+		b := vrt.Rune(vrt.Name("b", i))
+		e := vrt.Rune(vrt.Name("e", i))
+		vrt.Assume(vrt.And(vrt.And(b >= 0, b <= e), e <= rang3.MaxRune))
+		ranges[i] = rang3.Range{B: b, E: e}
+	}
+	// one intermediate state per rule, as Build does (start -ε-> rule.B -range-> target)
+	targets := make([]uint32, k)
+	for i := 0; i < k; i++ {
+		rb := mb.StateFactory.NewState()
+		t := mb.StateFactory.NewState()
+		targets[i] = t.ID
+		rb.AddTransition(t, ranges[i])
+		start.AddTransition(rb, nfaEpsilon())
+	}
+	normalizeInputs(start)
+	c := vrt.Rune("c")
+	vrt.Assume(vrt.And(c >= 0, c <= rang3.MaxRune))
+	// reachable targets on c after normalisation, per rule state
+	reach := make([]bool, k)
+	var all []rang3.Range
+	i := 0
+	start.Transitions.ForEach(func(in any, tos *arrayOfStates) {
+		for _, rb := range tos.Elements() {
+			idx := i
+			i++
+			rb.Transitions.ForEach(func(in2 any, tos2 *arrayOfStates) {
+				r, ok := in2.(rang3.Range)
+				if !ok {
+					return
+				}
+				all = append(all, r)
+				hit := vrt.And(r.B <= c, c <= r.E)
+				for _, t := range tos2.Elements() {
+					vrt.Assert(t.ID == targets[idx], "transition-keeps-its-target")
+				}
+				reach[idx] = vrt.Or(reach[idx], hit)
+			})
+		}
+	})
+	for j := 0; j < k; j++ {
+		want := vrt.And(ranges[j].B <= c, c <= ranges[j].E)
+		vrt.Assert(vrt.Iff(reach[j], want), "class-is-the-exact-union-of-its-pieces")
+	}
+	for x := 0; x < len(all); x++ {
+		for y := x + 1; y < len(all); y++ {
+			p, q := all[x], all[y]
+			vrt.Assert(vrt.Or(p == q, vrt.Or(p.E < q.B, q.E < p.B)), "pieces-equal-or-disjoint")
+		}
+	}
+	if len(all) > k {
+		vrt.Reach("split")
+	}
+}
+
+type arrayOfStates = array.Array[*nfa.State]
+
+func nfaEpsilon() any { return nfa.Epsilon }
